@@ -61,4 +61,28 @@ func init() {
 		{Pkg: ".../plugin", Func: "parsePluginFromDir"},
 		{Pkg: ".../internal/slices", Func: "ContainsAny"},
 	})
+
+	// CLIManager.Install needs the interface plugin.Plugin as an opaque nilable value (it calls
+	// GetMetadata through it), which excludes the Concrete row Get needs: a table of its own
+	// (theories/C16_Install_Gen.v). Everything Install calls is an oracle here.
+	const fw = "github.com/notaryproject/notation-plugin-framework-go/plugin"
+	Register("C16_Install", []Target{
+		{Pkg: fw, Type: "Plugin", Opaque: true, Nilable: true},
+		{Pkg: fw, Func: "GenericPlugin.GetMetadata", Oracle: true},
+		{Pkg: ".../plugin", Func: "(*CLIPlugin).GetMetadata", Oracle: true},
+		{Pkg: ".../plugin", Func: "NewCLIPlugin", Oracle: true},
+		{Pkg: ".../plugin", Func: "(*CLIManager).Get", Oracle: true},
+		{Pkg: ".../plugin", Func: "(*CLIManager).Uninstall", Oracle: true},
+		{Pkg: ".../plugin", Func: "parsePluginFromDir", Oracle: true},
+		{Pkg: ".../plugin", Func: "parsePluginName", Oracle: true},
+		{Pkg: ".../plugin", Func: "isExecutableFile", Oracle: true},
+		{Pkg: ".../plugin", Func: "isSameDir", Oracle: true},
+		{Pkg: ".../dir", Func: "SysFS.SysPath", Oracle: true},
+		{Pkg: ".../internal/file", Func: "CopyToDir", Oracle: true},
+		{Pkg: ".../internal/file", Func: "CopyDirToDir", Oracle: true},
+		{Pkg: "path/filepath", Func: "EvalSymlinks", Oracle: true},
+		{Pkg: "path/filepath", Func: "Dir", Oracle: true},
+		{Pkg: ".../internal/semver", Func: "ComparePluginVersion", Oracle: true},
+		{Pkg: ".../plugin", Func: "(*CLIManager).Install"},
+	})
 }
